@@ -1,6 +1,6 @@
 //! Script -> trace executor.
 //!
-//! usage: exec <script.ndjson> <trace.ndjson> [--from E] [--only E]
+//! usage: exec <script.ndjson> <trace.ndjson> [--from E] [--to E] [--only E]
 //!
 //! A script is NDJSON, one *episode* per line: `{"fam": "...", "ops": [...], ...}`.
 //! For every operation exactly one trace event (one line, one `write` call)
@@ -35,6 +35,7 @@ mod fam_lender;
 mod fam_vbuild;
 mod fam_atomic;
 mod fam_chunks;
+mod fam_rsbig;
 
 pub struct Ctx {
     out: Arc<Mutex<File>>,
@@ -147,16 +148,21 @@ pub fn guard<T>(f: impl FnOnce() -> T) -> Result<T, String> {
 fn main() {
     let args: Vec<String> = std::env::args().collect();
     if args.len() < 3 {
-        eprintln!("usage: exec <script.ndjson> <trace.ndjson> [--from E] [--only E]");
+        eprintln!("usage: exec <script.ndjson> <trace.ndjson> [--from E] [--to E] [--only E]");
         std::process::exit(2);
     }
     let mut from = 0usize;
     let mut only: Option<usize> = None;
+    let mut to = usize::MAX;
     let mut k = 3;
     while k < args.len() {
         match args[k].as_str() {
             "--from" => {
                 from = args[k + 1].parse().unwrap();
+                k += 2;
+            }
+            "--to" => {
+                to = args[k + 1].parse().unwrap();
                 k += 2;
             }
             "--only" => {
@@ -212,7 +218,7 @@ fn main() {
     let rd = BufReader::new(File::open(&args[1]).expect("script"));
     for (e, line) in rd.lines().enumerate() {
         let line = line.unwrap();
-        if e < from || only.map_or(false, |o| o != e) {
+        if e < from || e >= to || only.map_or(false, |o| o != e) {
             continue;
         }
         if line.trim().is_empty() {
@@ -236,6 +242,7 @@ fn main() {
             "vbuild" => fam_vbuild::run(&ep, &mut ctx),
             "atomic" => fam_atomic::run(&ep, &mut ctx),
             "chunks" => fam_chunks::run(&ep, &mut ctx),
+            "rsbig" => fam_rsbig::run(&ep, &mut ctx),
             _ => {
                 eprintln!("unknown family {fam}");
                 std::process::exit(2);
